@@ -47,9 +47,36 @@ def generate(outdir: str) -> dict:
             "self._db.insert(calibs_table, *rows_to_insert)": ("s", "(s ++ rows_to_insert)"),
         },
     )
+    cert = Spec(
+        "ByDimensionsDatasetRecordStorageManagerUUID.certify", "certifyPy",
+        [("timespan", "TS"), ("datasets", "List (Nat × Nat)"), ("conflicting_rows", "List (Nat × Calib.Row) → List Calib.Row → Nat"), ("s", T)],
+        f"Except String ({T})", kind="except",
+        start_at="rows = []",
+        variants={"data_ids is not None": True, "TimespanReprClass.hasExclusionConstraint()": False},
+        subst={
+            "set() if not TimespanReprClass.hasExclusionConstraint() else None": "([] : List Nat)",
+            "CollectionSummary()": "()",
+            "summary.add_datasets_generator(datasets)": "datasets",
+            "dict(proto_row, dataset_id=dataset.id, **dataset.dataId.required)": "(⟨dataset.1, dataset.2, timespan⟩ : Calib.Row)",
+            "not rows": "rows.isEmpty",
+            "data_ids is not None and len(data_ids) != len(rows) and (not timespan.isEmpty())":
+                "(decide (data_ids.length ≠ rows.length) && !(Gen.TsPy.isEmpty timespan))",
+            "self._get_calibs_table(storage.dynamic_tables)": "()",
+            "self._build_calib_overlap_query(dataset_type, collection, data_ids, timespan, context)": "()",
+            # the SELECT COUNT of rows overlapping the timespan for the call's data IDs: the SQL half, a parameter here
+            "context.count(context.process(relation))": "((conflicting_rows s rows : Nat) : Int)",
+        },
+        stmt_rewrites={
+            "TimespanReprClass.update(timespan, result=row)": ("row", "row"),
+            "rows.append(row)": ("rows", "(rows ++ [row])"),
+            "data_ids.add(dataset.dataId)": ("data_ids", "(Py.setAdd data_ids dataset.1)"),
+            "self._summaries.update(collection, [storage.dataset_type_id], summary)": ("summary", "summary"),
+            "self._db.insert(calibs_table, *rows)": ("s", "(s ++ rows.map fun r => ((0 : Nat), r))"),
+        },
+    )
     txt = translate_file(
-        os.path.join(PKG, "registry/datasets/byDimensions/_manager.py"), [spec], "Gen.DecertifyPy",
-        header="import ButlerModel.Model.Calib",
+        os.path.join(PKG, "registry/datasets/byDimensions/_manager.py"), [spec, cert], "Gen.DecertifyPy",
+        header="import ButlerModel.Model.Calib\nimport ButlerModel.Model.Py",
         tr_cls=lambda sp: StateTr(sp, state=("s",), effects={}),
     )
     open(os.path.join(outdir, "DecertifyPy.lean"), "w").write(txt)
